@@ -70,7 +70,7 @@ pub fn canon_for(name: &str, reply: Option<&[u8]>, tcp: bool) -> String {
         }
     } else if name.starts_with("rpc") {
         // record mark (length depends on the address string) masked; header through accept_stat
-        let b = if tcp && m.len() >= 4 { &m[4..] } else { &m[..] };
+        let b = if (tcp || name.contains("marked")) && m.len() >= 4 { &m[4..] } else { &m[..] };
         let keep = b.len().min(24);
         return format!("rpc:{}", hex(&b[..keep]));
     } else if name.starts_with("dns") {
@@ -120,11 +120,11 @@ pub fn port_points(sweep: u64, i: u64) -> (u16, u16) {
 }
 
 pub fn run(rep: &mut Report, thorough: bool) {
-    rep.rule = "for every base request of every application protocol (and three payloads that must not be answered), over UDP (quick) and over UDP and a fresh validated TCP flow (thorough): all 65536 destination ports at a fixed source port, all 65536 source ports at a fixed destination port, the 256x256 grid of (source high byte, destination high byte) and of the low bytes, on IPv4 and IPv6; differential oracle: answered-or-not and the canonical reply (STUN MAPPED-ADDRESS and its length word, portmapper addresses / ports / netids, DNS A RDLENGTH+RDATA, HTTP Date, SMB times masked) equal to the reference run (port 40000 -> 80, IPv4)".into();
+    rep.rule = "for every base request of every application protocol (and three payloads that must not be answered), over UDP (quick) and over UDP and a fresh validated TCP flow (thorough): all 65536 destination ports at a fixed source port, all 65536 source ports at a fixed destination port, the 256x256 grid of (source high byte, destination high byte) and of the low bytes, on IPv4 and IPv6; differential oracle: answered-or-not and the canonical reply (STUN MAPPED-ADDRESS and its length word, portmapper addresses / ports / netids, DNS A RDLENGTH+RDATA, HTTP Date, SMB times masked) equal to the reference run (port 40000 -> 80, IPv4); ADDED LATER: reply-size classes (DNS queries with 1..150 questions in 6 contexts) and port pairs whose SYN cookie is an edge value (4 keys confirmed against the real SYN-ACK)".into();
     rep.assumptions = vec!["2^32 port pairs per payload are not enumerated: two full one-dimensional sweeps plus two byte grids per payload, transport and IP version".into()];
     let cfg = cfg_plain();
     let pls = payloads();
-    let quick_set = ["http-get", "ssh-2", "ghost", "stun-classic-change-port", "smb2-negotiate", "rpc-udp-getaddr", "dns-a", "garbage", "http-incomplete", "dns-txt-ch", "stun-magic-attrs", "stun-classic-dns-polyglot", "stun-change-dns-polyglot"];
+    let quick_set = ["http-get", "ssh-2", "ghost", "stun-classic-change-port", "smb2-negotiate", "rpc-udp-getaddr", "dns-a", "garbage", "http-incomplete", "dns-txt-ch", "stun-magic-attrs", "stun-classic-dns-polyglot", "stun-change-dns-polyglot", "rpc-tcp-dump", "rpc-udp-dump", "rpc-tcp-getaddr", "rpc-marked-dump-in-datagram"];
     let sel: Vec<&Payload> = pls.iter().filter(|p| thorough || quick_set.contains(&p.name)).collect();
     // reference runs
     let ref_flow = flow4(40000, 80);
@@ -235,6 +235,69 @@ pub fn run(rep: &mut Report, thorough: bool) {
             &mut rep.sink,
         );
         rep.stage("reply-size-classes", "DNS queries with 1..150 root-name questions and 1..6 questions for 249-byte names x 6 contexts (IPv4 / IPv6, 3 port pairs): all canonical answers equal", nq * 6, t0);
+    }
+    // address forms: destination (and source) addresses whose printed form has every length; the
+    // replies that carry an endpoint address change size with it, everything else must not change
+    {
+        let t0 = std::time::Instant::now();
+        let mut dsts: Vec<Ip> = vec![Ip::V4([1, 1, 1, 1]), Ip::V4([100, 100, 100, 100]), Ip::V4([255, 255, 255, 255])];
+        for a in ["2001:db8::1", "2001:db8:1234:5678:9abc:def0:1357:2468", "2001:db8:1:2:3:4:5:6", "2001:db8:1234::5678:9abc", "ffff:ffff:ffff:ffff:ffff:ffff:ffff:fffe", "fe80::1234:5678:9abc:def0", "::1"] {
+            dsts.push(Ip::parse(a));
+        }
+        let ports = [1u16, 111, 65535];
+        let asel: Vec<&Payload> = sel.iter().filter(|p| p.name.starts_with("rpc") || p.name.starts_with("stun") || p.name.starts_with("dns")).cloned().collect();
+        let mut fl: Vec<Flow> = Vec::new();
+        for d in &dsts {
+            for p in ports {
+                let mut f = flow(!d.is_v4(), 40000, p);
+                f.sip = *d;
+                fl.push(f);
+            }
+        }
+        let ck = learn_cookies(&cfg, &fl).unwrap_or_default();
+        let dims = [asel.len() as u64, fl.len() as u64, 2];
+        let opts = RunOpts::new("address-forms").stateful().chunk(64).no_monitor();
+        engine::run(
+            &cfg,
+            product(&dims),
+            &opts,
+            |i| {
+                let d = unrank(i, &dims);
+                let f = &fl[d[1] as usize];
+                let p = asel[d[0] as usize];
+                if d[2] == 0 {
+                    vec![Cmd::Frame(f.udp(&p.bytes))]
+                } else {
+                    let c = ck.get(&key_of(f)).copied().unwrap_or(0).wrapping_add(1);
+                    vec![Cmd::Frame(f.tcp(1000, c, F_PSH | F_ACK, &p.bytes))]
+                }
+            },
+            |it: &Item, sk: &mut Sink| {
+                sk.count("frames", 1);
+                let d = unrank(it.idx, &dims);
+                let p = asel[d[0] as usize];
+                let tcp = d[2] == 1;
+                if (tcp && p.via == Via::UdpOnly) || (!tcp && p.via == Via::TcpOnly) {
+                    return;
+                }
+                let f = &fl[d[1] as usize];
+                let got = canon_checked(p.name, &p.bytes, it.outs[1].reply.as_deref(), &ctx_of(f, tcp));
+                let want = &refs[&(p.name.to_string(), tcp)];
+                if !same(&got, want) {
+                    sk.violation(Violation {
+                        prop: "C19".into(),
+                        key: format!("port-or-version-dependence:address-form:{}", p.name),
+                        what: format!("payload '{}' to {} port {} over {}: canonical reply {} differs from the reference run {}", p.name, f.sip, f.sport, if tcp { "TCP" } else { "UDP" }, &got[..got.len().min(90)], &want[..want.len().min(90)]),
+                        cfg: cfgc.clone(),
+                        cmds: it.cmds.to_vec(),
+                        idx: it.idx,
+                        stage: "address-forms".into(),
+                    });
+                }
+            },
+            &mut rep.sink,
+        );
+        rep.stage("address-forms", "payloads whose reply carries an endpoint address x 10 destination addresses (printed forms of every length) x 3 destination ports x {UDP, TCP}", product(&dims), t0);
     }
     // TCP sweeps: learn cookies for all flows first (SYN sweep), then data on fresh tables
     let tcp_sel: Vec<&Payload> = sel.iter().filter(|p| p.via != Via::UdpOnly).cloned().collect();
